@@ -112,7 +112,8 @@ def main() -> None:
                     t = trees.get(op[1]) or P.get_fcp_from_string(schemas[op[1]]).unwrap()
                     SER.encode(rs, "Fcp", t.reflection())
                 elif kind == "generate":
-                    _, g, sid, reuse = op
+                    _, g, sid, reuse = op[:4]
+                    disk = len(op) > 4 and bool(op[4]) and g != "reflection"
                     reused = bool(reuse and sid in trees)
                     if g == "reflection" and sid in from_file:
                         # the reflection record contains the source file name of every node: a tree parsed from a
@@ -126,7 +127,7 @@ def main() -> None:
                         from_file.discard(sid)
                     out = work / f"out{oi}"
                     buf = io.StringIO()
-                    rec = {"op": oi, "generator": g, "schema": sid, "reused": reused}
+                    rec = {"op": oi, "generator": g, "schema": sid, "reused": reused, "disk": disk}
                     try:
                         with contextlib.redirect_stdout(buf):
                             if g == "reflection":
@@ -136,6 +137,25 @@ def main() -> None:
                                 items = [{"type": "file", "path": out / "reflection.bin", "contents": blob.hex()}]
                             else:
                                 items = gens[g].Generator().generate(t, {"output": out, "templates": {}, "skels": {}})
+                            if disk:
+                                # the same generation through GeneratorManager into an output directory that this process
+                                # keeps using for this generator (it may hold files of earlier generations); what counts is
+                                # what is on disk afterwards at the returned paths
+                                import fcp.codegen as CG
+                                pd = work / f"persist_{g}"
+                                r = CG.GeneratorManager(V.make_general_verifier()).generate(g, None, None, t, str(pd))
+                                if r.is_err():
+                                    raise RuntimeError("rejected by the verifier: " + str(r.err()).split("\n")[0][:80])
+                                disk_items = []
+                                for it in items:
+                                    if it.get("type") == "file":
+                                        rel = os.path.relpath(str(it["path"]), str(out))
+                                        fp = pd / rel
+                                        body = fp.read_text() if fp.is_file() else "<missing on disk>"
+                                        disk_items.append({"type": "file", "path": out / rel, "contents": body})
+                                    else:
+                                        disk_items.append(it)
+                                items = disk_items
                         m = {}
                         for it in items:
                             if it.get("type") == "file":
